@@ -129,18 +129,26 @@ class C28(Prop):
         "the intersection is that point, two distinct points iff it is that segment) and "
         "never raises; C28_2d_correct_separated — the same for arbitrary rational "
         "endpoints whenever the decidable guard `separated` (every tolerance test agrees "
-        "with its exact counterpart) holds; C28_2d_symmetric / C28_2d_reversal — "
-        "independence of argument order.  3-D: full correctness is REFUTED on the faithful "
-        "model (two witnesses each for the open findings) and proved for the returned "
-        "point (soundness) only.  The model is tied to /repo on every run: Coq recomputes "
-        "both functions on every generated segment pair and compares classification, "
-        "points (1e-9) and raised errors with the implementation's output.")
+        "with its exact counterpart) holds; C28_2d_symmetric — independence of argument "
+        "order.  3-D: full correctness is REFUTED on the faithful model (witnesses for the "
+        "two open findings); proved instead: the point branch returns exactly seg1 ∩ seg2 "
+        "under the decidable guard sep3 (any rationals) and, for integer endpoints with "
+        "|coord| <= 1000, whenever the projected discriminant is non-zero "
+        "(C28_3d_point_branch_correct[_int]_partial); on the finite box {-1,0,1}^3 the whole "
+        "function equals an exact reference intersection outside EXACTLY the two open defect "
+        "families (C28_3d_box_partial, exhaustive vm_compute over 27^4 quadruples); a returned "
+        "single point always lies on segment 1 and within tol of segment 2.  The model is tied "
+        "to /repo on every run: Coq recomputes both functions on every generated segment pair "
+        "and compares classification, points (1e-9) and raised errors with the "
+        "implementation's output.")
     level_note = (
         "Trusted: Coq kernel + vm_compute; harness generator/emitter; floats are converted "
         "exactly to Q and compared within 1e-9*(1+|x|) inside Coq; floating-point rounding "
         "is not covered by a theorem (integer inputs keep it ~1e-15, far from every "
-        "tolerance band); tol = 1e-8 is taken as the rational 1/10^8.  NOT proved: 3-D "
-        "completeness (false: open findings); behaviour inside the tolerance bands.")
+        "tolerance band); tol = 1e-8 is taken as the rational 1/10^8; the reference of the "
+        "3-D box theorem (isect3_ref) is an exact rational routine written in Coq, not the "
+        "Prop-level spec.  NOT proved: 3-D completeness (false: open findings); the 3-D "
+        "parallel branch beyond the box {-1,0,1}^3; behaviour inside the tolerance bands.")
     technique = ("Coq proof (exact-arithmetic correctness of the transcribed algorithm, nsatz/nra/"
                  "field over Q; integer-separation lemmas) + vm_compute execution correspondence")
     rule = ("integer segment pairs: uniform samples from {-2..2}^2 / {-2..2}^3 and larger "
@@ -280,7 +288,14 @@ class C28(Prop):
                     pts[1] = list(pts[0])            # zero-length error input
             else:
                 pts = self._directed(rng, dim, 2 if rng.random() < 0.7 else big)
-            yield {"dim": dim, "pts": pts}
+            if rng.random() < 0.14:
+                # a large, non-default tolerance with quarter-integer coordinates: the
+                # tolerance tests themselves decide (tie only; the oracle is silent in-band)
+                tol = round(rng.uniform(0.003, 0.6), 4)
+                sc = rng.choice([1, 0.5, 0.25, 0.25])
+                yield {"dim": dim, "pts": [[x * sc for x in p] for p in pts], "tol": tol}
+            else:
+                yield {"dim": dim, "pts": pts}
 
     # -------------------------------------------------------------- implementation
     def run_impl(self, case):
@@ -290,7 +305,7 @@ class C28(Prop):
             warnings.simplefilter("ignore")
             with np.errstate(all="ignore"):
                 try:
-                    r = fn(a, b, c, d)
+                    r = fn(a, b, c, d, case.get("tol", 1e-8))
                 except AssertionError:
                     return {"kind": "err", "err": "AssertErr"}
                 except ValueError:
@@ -311,6 +326,10 @@ class C28(Prop):
     def oracle(self, case, res):
         if self._degenerate(case):
             self.stats["zero-length"] = self.stats.get("zero-length", 0) + 1
+            return None
+        if "tol" in case:
+            k = f"{case['dim']}d-large-tol-{res['kind']}"
+            self.stats[k] = self.stats.get(k, 0) + 1
             return None
         ex = exact_isect(*case["pts"])
         k = f"{case['dim']}d-{ex[0]}"
@@ -344,17 +363,21 @@ class C28(Prop):
     def coq_case(self, case, res):
         dim = case["dim"]
         pts = " ".join(_pt(p) for p in case["pts"])
+        tol = cq(case["tol"]) if "tol" in case else "tol8"
         if dim == 2:
-            return f"agree2 {_res(res, 2)} (seg2d tol8 {pts})"
-        return f"agree3 {_res(res, 3)} (seg3d tol8 {pts})"
+            return f"agree2 {_res(res, 2)} (seg2d {tol} {pts})"
+        return f"agree3 {_res(res, 3)} (seg3d {tol} {pts})"
 
     def coq_diag(self, case, res):
         pts = " ".join(_pt(p) for p in case["pts"])
-        return f"seg2d tol8 {pts}" if case["dim"] == 2 else f"seg3d tol8 {pts}"
+        tol = cq(case["tol"]) if "tol" in case else "tol8"
+        return f"seg2d {tol} {pts}" if case["dim"] == 2 else f"seg3d {tol} {pts}"
 
     def nontrivial(self, case, res):
         if self._degenerate(case):
             return False
+        if "tol" in case:
+            return True
         a, b, c, d = case["pts"]
         n = case["dim"]
         d1 = [b[i] - a[i] for i in range(n)]
